@@ -68,7 +68,7 @@ def base_grid(tier, monitors, gregory_only=False, meek_only=False, symtie=False,
         for rule in GREGORY_STATUTORY:
             if want(rule):
                 for seats in (1, 2):
-                    jobs.append(job(rule, {}, 3, seats, 3, 6 + bump + (1 if not quick else 0), monitors, B, symtie=symtie))
+                    jobs.append(job(rule, {}, 3, seats, 3, 6 + bump + (2 if not quick else 0), monitors, B, symtie=symtie, weight=1 if quick else 8))
         if want('qpq') and not gregory_only:
             for seats in (1, 2):
                 jobs.append(job('qpq', {}, 3, seats, 3, (6 if seats == 1 else 5) + (1 if not quick else 0), monitors, B,
@@ -103,8 +103,10 @@ def base_grid(tier, monitors, gregory_only=False, meek_only=False, symtie=False,
                 continue
             if meek_only and rule not in ('meek', 'warren', 'meek-prf'):
                 continue
+            slow4 = rule in ('meek', 'warren', 'meek-prf', 'qpq') or opts.get('arithmetic') == 'guarded'
             for seats in ((2, 3) if quick else (1, 2, 3)):
-                jobs.append(job(rule, opts, 4, seats, 1 if quick else 2, 7 if quick else 8, monitors, B, symtie=symtie, weight=2))
+                jobs.append(job(rule, opts, 4, seats, 1 if quick else 2, 7 if quick else (6 if slow4 else 8), monitors, B, symtie=symtie,
+                                weight=2 if quick else 20))
         if want('scotland') and not meek_only:
             # three-way ties whose earlier stages differ (rules 49/51) need four candidates and transfers
             jobs.append(job('scotland', {}, 4, 2, 2, 5 if quick else 6, monitors, B, symtie=symtie, weight=4))
